@@ -66,36 +66,37 @@ theorem popWhile_nil (o : String) (os : List Py) : popWhile o [] os = (os, []) :
   | nil => simp [popWhile]
   | cons a t => cases t <;> simp [popWhile]
 
-theorem popWhile_same (o : String) (x acc : Py) :
+theorem popWhile_same (o : String) (x acc : Py) (h : pops o o = true) :
     popWhile o [o] [x, acc] = ([.bin o acc x], []) := by
-  simp [popWhile]
+  simp [popWhile, h]
 
 /-- shunting-yard with one pending operator of the same kind: left-nested result -/
-theorem shunt_same (o : String) (es : List Py) (x acc : Py) :
+theorem shunt_same (o : String) (es : List Py) (x acc : Py) (h : es ≠ [] → pops o o = true) :
     shunt (opTokens o es) [x, acc] [o] = some (es.foldl (fun a e => .bin o a e) (.bin o acc x)) := by
   induction es generalizing x acc with
   | nil => simp [opTokens, shunt, reduceAll]
   | cons e t ih =>
+    have hp : pops o o = true := h (by simp)
     have : opTokens o (e :: t) = .op o :: .operand e :: opTokens o t := by
       simp [opTokens, List.flatMap_cons]
     rw [this]
-    simp only [shunt, popWhile_same]
-    exact ih e (.bin o acc x)
+    simp only [shunt, popWhile_same o x acc hp]
+    exact ih e (.bin o acc x) (fun _ => hp)
 
-theorem shunt_chain (o : String) (a0 e1 : Py) (es : List Py) :
+theorem shunt_chain (o : String) (a0 e1 : Py) (es : List Py) (h : es ≠ [] → pops o o = true) :
     shunt (.operand a0 :: opTokens o (e1 :: es)) [] [] =
       some ((e1 :: es).foldl (fun a e => .bin o a e) a0) := by
   have : opTokens o (e1 :: es) = .op o :: .operand e1 :: opTokens o es := by
     simp [opTokens, List.flatMap_cons]
   rw [this]
   simp only [shunt, popWhile_nil]
-  rw [shunt_same]
+  rw [shunt_same o es e1 a0 h]
   simp
 
 /-- Python reads `a₀ o e₁ o e₂ …` (all operands atomic, one operator) as the left-nested tree of the
 re-read operands -/
 theorem reparse_chain (o : String) (a0 e1 : Py) (es : List Py)
-    (h0 : isBin a0 = false) (h : allNonBin (e1 :: es) = true) :
+    (h0 : isBin a0 = false) (h : allNonBin (e1 :: es) = true) (hp : es ≠ [] → pops o o = true) :
     reparseTop ((e1 :: es).foldl (fun a e => .bin o a e) a0) =
       ((e1 :: es).map reparseTop).foldl (fun a e => .bin o a e) (reparseTop a0) := by
   -- the whole chain is a `.bin` whose flattening is the token list
@@ -111,7 +112,7 @@ theorem reparse_chain (o : String) (a0 e1 : Py) (es : List Py)
     rw [hX] at hflat
     simp only [reparseTop]
     rw [← hi, hflat]
-    have := shunt_chain o (reparseTop a0) (reparseTop e1) (es.map reparseTop)
+    have := shunt_chain o (reparseTop a0) (reparseTop e1) (es.map reparseTop) (by simpa using hp)
     simp only [List.map_cons, List.singleton_append] at this ⊢
     rw [this]
   | _ => rw [hX] at hb; simp [isBin] at hb
